@@ -37,6 +37,22 @@ VARIANTS = {
     "qf": ("qf", 4, _id, False),
     "qf.dflt": ("qf", 3, lambda a: a + [1], False),
 }
+# an output being the same object as an input (Rational::ratrecon / RationalReconstruction x3): same values expected
+for _j in range(6):
+    VARIANTS["ratrecon.al%d" % _j] = ("ratrecon", 5, lambda a: a[:4], True)
+    VARIANTS["rr7.al%d" % _j] = ("rr7", 5, _id, True)
+for _j in range(4):
+    VARIANTS["rr4.al%d" % _j] = ("rr4", 2, _id, True)
+for _j in range(8):
+    VARIANTS["rr6.al%d" % _j] = ("rr6", 4, _id, True)
+POLY_BASE = ["poly.rr5", "poly.check", "poly.rr6", "poly.rr5d", "poly.checkd", "poly.rr6d"]
+POLY_FORMS = POLY_BASE + ["%s.al%d" % (b, j) for b in POLY_BASE for j in range(4)]
+
+
+def poly_model_op(v):
+    """model op of a polynomial call form: strip the alias suffix and the storage-type suffix"""
+    b = v.split(".al")[0]
+    return b[:-1] if b.endswith("d") else b
 
 SMALL_PRIMES = [2, 3, 5, 7, 11, 13, 17, 19, 23, 29, 31, 37, 41, 43, 47, 53, 59, 61, 67, 71, 73, 79, 83, 89, 97, 101, 103, 107, 109, 113]
 
@@ -174,6 +190,125 @@ def first_candidate(f, m, k):
     return r1, t1, n
 
 
+def branch_class(f, m, k):
+    """which branch of Rational::ratrecon(.., forcereduce = true) the input takes (generation / statistics only)"""
+    r0, t0, r1, t1 = m, 0, (f % m if f < 0 else f), 1
+    while r1 >= k:
+        q = r0 // r1
+        r0, r1 = r1, r0 - q * r1
+        t0, t1 = t1, t0 - q * t1
+    if math.gcd(r1, t1) == 1: return "first"
+    if r1 == 0: return "num0-ok" if f % m == 0 else "num0-fail"
+    q = (r0 + r1 - k) // r1
+    return "second-ok" if math.gcd(r0 - q * r1, t0 - q * t1) == 1 else "second-rejected"
+
+
+# moduli of the deterministic blocks (the same on every run and for every seed): tiny, the examples of tests/test-ratrecon.C,
+# prime, prime power, power of two at the limb boundary, smooth multi-limb, multi-limb prime
+GRID_MODULI = [8, 12, 250, 1000, 1009, 3 ** 9, 1 << 16, 2 * 3 * 5 * 7 * 11 * 13 * 17 * 19, 1 << 64, (1 << 89) - 1,
+               (2 ** 5) * (3 ** 7) * (5 ** 6) * (7 ** 5) * (11 ** 4) * (13 ** 3)]
+
+
+def grid_triples():
+    """(f, m, k, class): for every grid modulus and every bound k in {1, 2, sqrt m - 1, sqrt m, sqrt m + 1, m/2, m - 1, m} the first
+    residue (deterministic scan) of each branch class: first candidate, second candidate accepted / rejected, num == 0"""
+    out = []
+    for m in GRID_MODULI:
+        s = isqrt(m)
+        for k in sorted(set(x for x in (1, 2, s - 1, s, s + 1, m // 2, m - 1, m) if 1 <= x <= m)):
+            seen = {}
+            cands = list(range(0, 40)) + [m // d * j for d in (2, 3, 4, 5, 6, 8, 9, 10, 12, 25) if m % d == 0 for j in range(1, d)] + \
+                    [s + j for j in range(-3, 4)] + [m - j for j in range(1, 20)] + [(m * j) // 7 + i for j in range(1, 7) for i in range(3)] + \
+                    [(j * j * 7919 + 13 * j) % m for j in range(1, 120)]
+            for f in cands:
+                if not 0 <= f < m: continue
+                c = branch_class(f, m, k)
+                if c not in seen:
+                    seen[c] = f
+                if len(seen) == 5: break
+            for c, f in sorted(seen.items()):
+                out.append((f, m, k, c))
+    return out
+
+
+def grid_cases(tier):
+    """deterministic block 1: every integer call form x every combination of its boolean flags x the representatives
+    f - 2m, f - m, f, f + m, f + 2m of the residue (negative / below -m / reduced / >= m) on a rotating subset of the grid
+    triples (all of them in the thorough tier); the bounds k = m + 1 and 2m (outside the domain) go to ratrecon only"""
+    cases = []
+    tr = grid_triples()
+    vs = sorted(VARIANTS)
+    for idx, (f, m, k, c) in enumerate(tr):
+        reps = [f - 2 * m, f - m, f, f + m, f + 2 * m]
+        for vi, v in enumerate(vs):
+            op, nargs, mp, _ = VARIANTS[v]
+            if op in ("rr4", "rr6"): continue
+            # quick: each triple goes to every non-aliased form, and to one aliased form in rotation
+            if ".al" in v and tier == "quick" and (vi + idx) % 6 != 0: continue
+            if m.bit_length() > 64 and tier == "quick" and (vi + idx) % 3 != 0: continue
+            full = [None, m, k] if op != "qf" else [None, m]
+            if op == "qf" and k != isqrt(m): continue
+            nflags = nargs - len(full)
+            for ri, x in enumerate(reps):
+                if tier == "quick" and c == "first" and ri not in (0, 3) and k not in (1, isqrt(m), m): continue
+                for bits in range(1 << nflags):
+                    ia = [x] + full[1:] + [(bits >> j) & 1 for j in range(nflags)]
+                    cases.append((v, op, ia, mp(list(ia)), None, "grid-" + c, "grid"))
+        for kk in (m + 1, 2 * m):
+            for x in (f, f + m, f - m, kk, kk + 1, kk - 1):
+                for fr in (0, 1):
+                    ia = [x, m, kk, fr, 1]
+                    cases.append(("ratrecon.static", "ratrecon", ia, ia[:4], None, "grid-k>m", "grid"))
+    # rr4 / rr6 (no flags): every grid modulus x structured residues x the representatives, all call forms incl. aliased
+    for m in GRID_MODULI:
+        s = isqrt(m)
+        base = sorted(set(x % m for x in (0, 1, 2, s, s + 1, m - 1, m // 2, m // 3, m // 2 + 1, 3 * (m // 4), 51, 75, 246)))
+        for f in base:
+            for x in (f - m, f, f + m):
+                for v in vs:
+                    op, nargs, mp, _ = VARIANTS[v]
+                    if op == "rr4":
+                        cases.append((v, op, [x, m], [x, m], None, "grid-rr4", "grid"))
+                    elif op == "rr6" and (tier != "quick" or x == f or ".al" not in v):
+                        for ab, bb in ((s, s), (max(1, s // 2), max(1, m // max(1, s // 2))), (1, m), (m, 1), (s + 1, max(1, s - 1))):
+                            cases.append((v, op, [x, m, ab, bb], [x, m, ab, bb], None, "grid-rr6", "grid"))
+    return cases
+
+
+def envelope_cases(tier):
+    """deterministic block 2: the boundary of the uniqueness envelope 4|a| <= sqrt m, 4 b <= sqrt m: a, b in {e - 1, e} (inside: must be
+    reconstructed exactly) and e + 1 (outside: soundness only), representatives f - m, f, f + m, through EVERY entry point that
+    can be given the default bound sqrt m (Reduce / forcereduce on and off, recurs on and off)"""
+    cases = []
+    vs = sorted(VARIANTS)
+    for m in GRID_MODULI + [10007 * 10009, (1 << 127) - 1]:
+        s = isqrt(m); e = s // 4
+        if e < 2: continue
+        pairs = []
+        for a0 in (e, e - 1, 1, 0, e + 1):
+            for b0 in (e, e - 1, 1, e + 1):
+                b = b0
+                while b > 1 and (math.gcd(b, m) != 1 or math.gcd(a0, b) != 1): b -= 1
+                if math.gcd(b, m) != 1 or math.gcd(a0, b) != 1: continue
+                for a in ((a0, -a0) if a0 else (0,)):
+                    if (a, b) not in pairs: pairs.append((a, b))
+        for pi, (a, b) in enumerate(pairs):
+            f0 = a * pow(b, -1, m) % m
+            for ri, x in enumerate((f0 - m, f0, f0 + m)):
+                for vi, v in enumerate(vs):
+                    op, nargs, mp, _ = VARIANTS[v]
+                    if op == "rr6": continue
+                    if tier == "quick" and ".al" in v and (vi + pi + ri) % 5 != 0: continue
+                    if tier == "quick" and m.bit_length() > 64 and (vi + pi + ri) % 3 != 0: continue
+                    full = [x, m] if op in ("rr4", "qf") else [x, m, s]
+                    nflags = nargs - len(full)
+                    for bits in range(1 << nflags):
+                        if tier == "quick" and nflags == 2 and bits in (1, 2) and (pi + ri) % 2: continue
+                        ia = full + [(bits >> j) & 1 for j in range(nflags)]
+                        cases.append((v, op, ia, mp(list(ia)), (a, b), "envelope-boundary", "grid"))
+    return cases
+
+
 # ------------------------------------------------------------------ specification oracle
 def spec_check(op, a, out, extra=None):
     """returns list of (klass, message) for every clause of the property the implementation output violates.
@@ -246,9 +381,11 @@ def spec_complete(op, a, frac, out):
     if op == "rr4": f, m = a; k = isqrt(m); fr = 1
     elif op == "ratrecon": f, m, k, fr = a
     elif op == "rr7": f, m, k, fr, rc = a
+    elif op in ("ctor", "qfk"): f, m, k, fr, rc = a       # Rational::flags = Reduce is "a reduced fraction is requested"
+    elif op == "qf": f, m, fr, rc = a; k = isqrt(m)
     else: return None
     s = isqrt(m)
-    if not (m >= 2 and k == s and fr and 4 * abs(x) <= s and 4 * y <= s): return None
+    if not (m >= 2 and k == s and fr and 4 * abs(x) <= s and 4 * y <= s and math.gcd(x, y) == 1 and (x - y * f) % m == 0): return None
     return (1, x, y)
 
 
@@ -323,10 +460,11 @@ def gen_cases(rng, tier, chk):
         if k > m: continue
         r1, t1, _ = first_candidate(f, m, k)
         if math.gcd(r1, t1) != 1: trip.append((f, m, k, mclass))
-    for f, m, k, mclass in trip:
-        for v in vs:
+    for ti, (f, m, k, mclass) in enumerate(trip):
+        for vi, v in enumerate(vs):
             op, nargs, mp, _ = VARIANTS[v]
             if op in ("rr4", "rr6"): continue
+            if ".al" in v and (vi + ti) % 6 != 0: continue      # aliased forms: one per triple, in rotation
             full = [f, m, k] if op != "qf" else [f, m]
             nflags = nargs - len(full)
             for bits in range(1 << nflags):
@@ -347,6 +485,9 @@ def gen_cases(rng, tier, chk):
                 f = a * pow(b, -1, m) % m
                 ia = [f, m]
                 cases.append(("rr4.static", "rr4", ia, ia, (a, b), "envelope-enum", mclass))
+    # deterministic blocks (independent of the seed)
+    cases += grid_cases(tier)
+    cases += envelope_cases(tier)
     return cases
 
 
@@ -407,6 +548,26 @@ def pinvmod(a, m, p):
 
 POLY_PRIMES = [2, 3, 5, 7, 13, 101, 257, 65521, 1048573, 67108859]
 
+# fixed inputs of the deterministic polynomial call-form block: (p, M, (A, B) | P, dk); coefficient lists, low degree first
+POLY_GRID = [
+    (101, [5, 2, 0, 1], ([3, 1], [1, 4]), 1),                  # (3+x)/(1+4x) mod x^3+2x+5
+    (101, [5, 2, 0, 1], ([3, 1], [1, 4]), 2),
+    (101, [5, 2, 0, 1], ([3, 1, 2], [1]), 2),                  # deg P == dk: no early exit
+    (101, [0, 0, 0, 0, 1], [1, 0, 0, 1], 2),                   # X^4, 1 + X^3: the first candidate is not coprime
+    (3, [0, 0, 1], [0, 1], 0),
+    (3, [0, 0, 1], [0, 1], 1),
+    (7, [1, 0, 0, 0, 0, 0, 1], ([1, 2, 3], [6, 5, 1]), 2),     # dk at the uniqueness boundary deg A = dk, deg B = deg M - dk - 1... - 1
+    (7, [1, 0, 0, 0, 0, 0, 1], ([1, 2, 3], [4, 6, 5, 1]), 2),  # deg B = deg M - dk - 1: the boundary
+    (65521, [1, 1, 0, 0, 1, 0, 0, 0, 3], ([5, 0, 0, 1], [2, 0, 7, 0, 1]), 3),
+    (65521, [1, 1, 0, 0, 1, 0, 0, 0, 3], ([5, 0, 0, 1], [2, 0, 7, 0, 1]), 0),   # bound too small: failure or another pair
+    (2, [1, 1, 0, 1, 1], ([1, 1], [1, 0, 1]), 1),
+    (67108859, [7, 0, 0, 1], [0], 1),                          # P = 0
+    (67108859, [7, 0, 0, 1], [5], 0),                          # non-zero constant with dk = 0
+    (13, [12, 0, 1], [1, 1], 0),                               # M = (x-1)(x+1), P = x+1 shares a factor with M
+    (13, [1, 2, 1], ([1], [1, 1]), 0),                         # M = (x+1)^2, B = x+1 not invertible -> handled below (pinvmod None)
+]
+
+
 def rand_poly(rng, p, d, monic=False):
     """degree exactly d (d = -1: zero)"""
     if d < 0: return []
@@ -443,6 +604,8 @@ def gen_poly_case(rng, big):
         if Bi is not None:
             P = pdivmod(pmul(A, Bi, p), M, p)[1]
             fclass = "frac"
+            if rng.chance(1, 4):         # a representative that is not reduced modulo M (deg P >= deg M)
+                P = padd(P, pmul(M, rand_poly(rng, p, rng.range(0, 2)), p), p); fclass = "frac-unreduced"
             g = pgcd(A, B, p)
             if len(g) == 1: frac = (A, B)
         else:
@@ -458,6 +621,9 @@ def gen_poly_case(rng, big):
     else: P = rand_poly(rng, p, rng.range(max(0, dM - 2), dM - 1))
     fr = rng.below(2)
     v = rng.choice(["poly.rr5", "poly.check", "poly.rr6", "poly.rr6", "poly.rr5d", "poly.checkd", "poly.rr6d"])
+    if rng.chance(1, 6): v = "%s.al%d" % (v, rng.below(4))       # an output is the same object as P or M
+    if rng.chance(1, 8): P = P + [0] * rng.range(1, 3)            # vectors that are not normalised (zero leading entries)
+    if rng.chance(1, 8): M = M + [0] * rng.range(1, 2)
     args = [p, dk, fr, len(P)] + P + [len(M)] + M
     return v, args, fclass, frac, (p, dk, fr, P, M)
 
@@ -580,17 +746,40 @@ def main(tier, replay=None):
     for i in range(npoly):
         v, args, fclass, frac, pc = gen_poly_case(rng, tier != "quick")
         pcases.append((v, v[:-1] if v.endswith("d") else v, args, args, frac, fclass, "p=%d" % pc[0], pc))
-    # exhaustive small block over F_2 and F_3: every P of degree < deg M, every monic M of degree 1..3 (F_3: ..2), every dk
-    for p, dmax in ((2, 4 if tier == "quick" else 6), (3, 2 if tier == "quick" else 4)):
-        for dM in range(1, dmax + 1):
-            for mi in range(p ** dM):
-                M = [(mi // p ** j) % p for j in range(dM)] + [1]
-                for pi in range(p ** dM):
-                    P = ptrim([(pi // p ** j) % p for j in range(dM)])
-                    for dk in range(0, dM):
-                        for v, fr in (("poly.rr5", 1), ("poly.check", 0), ("poly.rr6", 0), ("poly.rr6", 1)):
-                            args = [p, dk, fr, len(P)] + P + [len(M)] + M
-                            pcases.append((v, v, args, args, None, "exhaustive", "p=%d" % p, (p, dk, fr, P, M)))
+    # exhaustive small block over F_2 and F_3 (deterministic): every M of small degree (F_3: both leading coefficients), every residue P up to a degree above deg M
+    # (residues of degree below / equal / above the modulus), every dk in [0, deg M), 5-argument, check and dispatcher with both flags
+    # number of coefficient slots of P per (p, deg M, leading coefficient of M): deg P ranges over -1 .. slots - 1
+    if tier == "quick":
+        slots = {(2, 1, 1): 4, (2, 2, 1): 5, (2, 3, 1): 6, (2, 4, 1): 4, (3, 1, 1): 4, (3, 1, 2): 3, (3, 2, 1): 3, (3, 2, 2): 2}
+    else:
+        slots = dict(((2, d, 1), d + 3 if d <= 4 else d) for d in range(1, 7))
+        slots.update(dict(((3, d, l), d + 2 if d <= 2 else d) for d in range(1, 5) for l in (1, 2)))
+    for (p, dM, lead), dP in sorted(slots.items()):
+        for mi in range(p ** dM):
+            M = [(mi // p ** j) % p for j in range(dM)] + [lead]
+            for pi in range(p ** dP):
+                P = ptrim([(pi // p ** j) % p for j in range(dP)])
+                for dk in range(0, dM):
+                    for v, fr in (("poly.rr5", 1), ("poly.check", 0), ("poly.rr6", 0), ("poly.rr6", 1)):
+                        args = [p, dk, fr, len(P)] + P + [len(M)] + M
+                        pcases.append((v, v, args, args, None, "exhaustive", "p=%d" % p, (p, dk, fr, P, M)))
+    # deterministic call-form block: fixed (p, M, A/B or P, dk) x representatives of the residue (reduced; + c*M: degree equal to
+    # deg M; + (X^2+7)*M: degree above; zero leading entries) x every polynomial call form incl. the aliased ones x both flags
+    for (p, M, src, dk) in POLY_GRID:
+        if isinstance(src, tuple):
+            A, B = src
+            Bi = pinvmod(B, M, p)
+            P0 = pdivmod(pmul(A, Bi, p), M, p)[1] if Bi is not None else ptrim(A)
+            frac0 = src if Bi is not None and len(pgcd(A, B, p)) == 1 else None
+        else:
+            P0, frac0 = ptrim(src), None
+        reps = [("reduced", P0), ("deg=degM", padd(P0, pmul(M, [3 % p or 1], p), p)), ("deg>degM", padd(P0, pmul(M, [7 % p, 0, 1], p), p)),
+                ("unnormalised", P0 + [0, 0])]
+        for rname, P in reps:
+            for v in POLY_FORMS:
+                for fr in (0, 1):
+                    args = [p, dk, fr, len(P)] + P + [len(M)] + M
+                    pcases.append((v, poly_model_op(v), args, args, frac0, "grid-" + rname, "p=%d" % p, (p, dk, fr, P, M)))
     allc = [(v, op, ia, ma, frac, fc, mc, None) for (v, op, ia, ma, frac, fc, mc) in cases] + pcases
     if replay:
         allc = cases_from_replay(replay)
